@@ -204,11 +204,11 @@ theorem post_hit (p : Nat) (hp : p ≠ 0) (rest : List Char) (hrest : NoDigitHea
     simp [labelled, optSep, isSep]
   simp only [this]
   simp only [List.cons_append, List.nil_append] at h
-  simp [h]
+  simp [h, postDash]
 
 theorem post_none (d : Nat) : postGroup (devStr d) = none := by
   unfold devStr
-  by_cases hd : d = 0 <;> simp [hd, postGroup, labelled, optSep, isSep, firstAlt, stripPrefix, postAlts]
+  by_cases hd : d = 0 <;> simp [hd, postGroup, postDash, labelled, optSep, isSep, firstAlt, stripPrefix, postAlts]
 
 theorem dev_hit (d : Nat) (hd : d ≠ 0) :
     labelled devAlts (devStr d) = some (['d', 'e', 'v'], natDigits d, []) := by
@@ -226,32 +226,25 @@ theorem dev_hit (d : Nat) (hd : d ≠ 0) :
 theorem dev_none : labelled devAlts [] = none := by
   simp [labelled, optSep, firstAlt, stripPrefix, devAlts]
 
-/-- From the release segment on: what the rest of `matchHere` computes. -/
-theorem suffix_groups {label : List Char} (hl : ValidLabel label) (n p d : Nat) :
-    (match labelled preAlts (sufStr label n p d) with
-      | some (l, m, r) => (l, m, r)
-      | none => ([], [], sufStr label n p d))
+theorem preGroup_printed {label : List Char} (hl : ValidLabel label) (n p d : Nat) :
+    preGroup (sufStr label n p d)
     = (label, (if label ≠ [] then natDigits n else []), postStr p ++ devStr d) := by
+  unfold preGroup
   by_cases hne : label = []
   · subst hne
     simp [sufStr, preStr, pre_none]
   · have := pre_hit hl hne n (postStr p ++ devStr d) (pd_noDigitHead p d)
     simp [sufStr, preStr, hne, this]
 
-theorem post_groups (p d : Nat) :
-    (match postGroup (postStr p ++ devStr d) with
-      | some (a, b, r) => (a, b, r)
-      | none => ([], [], postStr p ++ devStr d))
-    = ([], (if p ≠ 0 then natDigits p else []), devStr d) := by
+theorem postGroupOpt_printed (p d : Nat) :
+    postGroupOpt (postStr p ++ devStr d) = ([], (if p ≠ 0 then natDigits p else []), devStr d) := by
+  unfold postGroupOpt
   by_cases hp : p = 0
   · subst hp; simp [postStr, post_none]
   · simp [post_hit p hp (devStr d) (dev_noDigitHead d), hp]
 
-theorem dev_groups (d : Nat) :
-    (match labelled devAlts (devStr d) with
-      | some (_, m, _) => m
-      | none => [])
-    = (if d ≠ 0 then natDigits d else []) := by
+theorem devGroup_printed (d : Nat) : devGroup (devStr d) = (if d ≠ 0 then natDigits d else []) := by
+  unfold devGroup
   by_cases hd : d = 0
   · subst hd; simp [devStr, dev_none]
   · simp [dev_hit d hd, hd]
@@ -270,7 +263,7 @@ theorem matchRest_printed (epochGroup : List Char) (r1 : Nat) (rs : List Nat)
     (relTail rs ++ sufStr label n p d).length (by
       have := relTail_length rs; simp only [List.length_append]; omega)
   unfold matchRest
-  simp only [h₁, h₂, suffix_groups hl n p d, post_groups p d, dev_groups d]
+  simp only [h₁, h₂, preGroup_printed hl n p d, postGroupOpt_printed p d, devGroup_printed d]
 
 /-- The printed text: optional `epoch!`, then the release segment and the rest. -/
 def printed (e r1 : Nat) (rs : List Nat) (label : List Char) (n p d : Nat) : List Char :=
@@ -280,6 +273,16 @@ def printedGroups (e r1 : Nat) (rs : List Nat) (label : List Char) (n p d : Nat)
   { epoch := if e ≠ 0 then natDigits e else [], release := natDigits r1 ++ relTail rs, preL := label,
     preN := if label ≠ [] then natDigits n else [], postN1 := [],
     postN2 := if p ≠ 0 then natDigits p else [], devN := if d ≠ 0 then natDigits d else [] }
+
+theorem epochSplit_no_bang (s d0 r0 : List Char) (h : ∀ r, r0 ≠ '!' :: r) : epochSplit s d0 r0 = ([], s) := by
+  unfold epochSplit
+  split
+  · rename_i r1 ; exact absurd rfl (h r1)
+  · rfl
+
+theorem epochSplit_bang (s d0 : List Char) (c : Char) (cs : List Char) (hc : isDigit c = true) :
+    epochSplit s d0 ('!' :: c :: cs) = (d0, c :: cs) := by
+  simp [epochSplit, hc]
 
 theorem matchHere_printed (e r1 : Nat) (rs : List Nat) {label : List Char} (hl : ValidLabel label)
     (n p d : Nat) : matchHere (printed e r1 rs label n p d) = some (printedGroups e r1 rs label n p d) := by
@@ -293,27 +296,9 @@ theorem matchHere_printed (e r1 : Nat) (rs : List Nat) {label : List Char} (hl :
     have h₀ := spanDigits_append (natDigits_isDig r1).2 hT
     have hne : (natDigits r1).isEmpty = false := by rw [hr1]; rfl
     unfold matchHere
-    simp only [h₀, hne]
-    have hbang := tail_no_bang hl rs n p d
-    -- the text after the first number does not start with `!`
-    cases hq : relTail rs ++ sufStr label n p d with
-    | nil =>
-      simp only [Bool.false_eq_true, if_false]
-      rw [← hq, matchRest_printed [] r1 rs hl n p d]
-    | cons c cs =>
-      have hc : c ≠ '!' := by
-        intro h; subst h; exact hbang cs hq
-      simp only [Bool.false_eq_true, if_false]
-      have : (match c :: cs with
-          | '!' :: r1' => (match r1' with
-              | c' :: _ => if isDigit c' then (natDigits r1, r1') else ([], natDigits r1 ++ c :: cs)
-              | [] => ([], natDigits r1 ++ c :: cs))
-          | _ => (([] : List Char), natDigits r1 ++ c :: cs)) = ([], natDigits r1 ++ c :: cs) := by
-        split
-        · rename_i h; simp only [List.cons.injEq] at h; exact absurd h.1 hc
-        · rfl
-      simp only [this]
-      rw [← hq, matchRest_printed [] r1 rs hl n p d]
+    simp only [h₀, hne, Bool.false_eq_true, if_false]
+    rw [epochSplit_no_bang _ _ _ (tail_no_bang hl rs n p d)]
+    simp only [matchRest_printed [] r1 rs hl n p d]
   · simp only [ne_eq, he, not_false_eq_true, if_true, List.append_assoc, List.singleton_append]
     have hbangND : NoDigitHead ('!' :: (natDigits r1 ++ (relTail rs ++ sufStr label n p d))) :=
       noDigitHead_cons _ (by decide)
@@ -322,8 +307,496 @@ theorem matchHere_printed (e r1 : Nat) (rs : List Nat) {label : List Char} (hl :
     have hne : (natDigits e).isEmpty = false := by rw [he1]; rfl
     unfold matchHere
     simp only [h₀, hne, Bool.false_eq_true, if_false]
-    rw [hr1]
-    simp only [List.cons_append, digitChar_isDigit dr hdr, if_true]
-    rw [← List.cons_append, ← hr1, matchRest_printed (natDigits e) r1 rs hl n p d]
+    have hsplit : epochSplit (natDigits e ++ '!' :: (natDigits r1 ++ (relTail rs ++ sufStr label n p d)))
+        (natDigits e) ('!' :: (natDigits r1 ++ (relTail rs ++ sufStr label n p d)))
+        = (natDigits e, natDigits r1 ++ (relTail rs ++ sufStr label n p d)) := by
+      rw [hr1]
+      exact epochSplit_bang _ _ _ _ (digitChar_isDigit dr hdr)
+    rw [hsplit]
+    simp only [matchRest_printed (natDigits e) r1 rs hl n p d]
+
+/-! ### from the groups back to the version -/
+
+theorem splitOn_ne_nil (sep : Char) (l : List Char) : splitOn sep l ≠ [] := by
+  induction l with
+  | nil => simp [splitOn]
+  | cons c cs ih =>
+    unfold splitOn
+    split
+    · simp
+    · split <;> simp
+
+theorem splitOn_nosep (sep : Char) (l : List Char) (h : ∀ c ∈ l, c ≠ sep) : splitOn sep l = [l] := by
+  induction l with
+  | nil => rfl
+  | cons c cs ih =>
+    have := ih (fun x hx => h x (List.mem_cons_of_mem _ hx))
+    have hc : c ≠ sep := h c List.mem_cons_self
+    simp [splitOn, this, hc]
+
+theorem splitOn_append_sep (sep : Char) (l r : List Char) (h : ∀ c ∈ l, c ≠ sep) :
+    splitOn sep (l ++ sep :: r) = l :: splitOn sep r := by
+  induction l with
+  | nil =>
+    simp only [List.nil_append, splitOn]
+    cases hs : splitOn sep r with
+    | nil => exact absurd hs (splitOn_ne_nil sep r)
+    | cons p ps => simp
+  | cons c cs ih =>
+    have := ih (fun x hx => h x (List.mem_cons_of_mem _ hx))
+    have hc : c ≠ sep := h c List.mem_cons_self
+    simp [splitOn, this, hc]
+
+theorem natDigits_no_dot (n : Nat) : ∀ c ∈ natDigits n, c ≠ '.' := by
+  intro c hc
+  obtain ⟨d, hd, rfl⟩ := (natDigits_isDig n).2 c hc
+  exact (digChar_facts d hd).2.2.1
+
+theorem splitOn_release (r1 : Nat) (rs : List Nat) :
+    splitOn '.' (natDigits r1 ++ relTail rs) = (r1 :: rs).map natDigits := by
+  induction rs generalizing r1 with
+  | nil => simp [relTail, splitOn_nosep '.' _ (natDigits_no_dot r1)]
+  | cons x xs ih =>
+    have : natDigits r1 ++ relTail (x :: xs) = natDigits r1 ++ '.' :: (natDigits x ++ relTail xs) := by
+      simp [relTail, List.flatMap_cons]
+    rw [this, splitOn_append_sep '.' _ _ (natDigits_no_dot r1), ih x]
+    simp
+
+theorem atoiAll_natDigits (ns : List Nat) (h : ∀ x ∈ ns, x < 9223372036854775808) :
+    atoiAll (ns.map natDigits) = some (ns.map Int.ofNat) := by
+  induction ns with
+  | nil => rfl
+  | cons x xs ih =>
+    have hx := atoi_natDigits x (h x List.mem_cons_self)
+    have := ih (fun y hy => h y (List.mem_cons_of_mem _ hy))
+    simp [atoiAll, hx, this]
+
+theorem natDigits_isEmpty (n : Nat) : (natDigits n).isEmpty = false := by
+  obtain ⟨d, cs, _, h⟩ := natDigits_cons n; rw [h]; rfl
+
+theorem atoiOpt_printed (n : Nat) (hn : n < 9223372036854775808) (c : Prop) [Decidable c] (h0 : ¬ c → n = 0) :
+    atoiOpt (if c then natDigits n else []) = some (n : Int) := by
+  by_cases hc : c
+  · simp [hc, atoiOpt, natDigits_isEmpty, atoi_natDigits n hn]
+  · simp [hc, atoiOpt, h0 hc]
+
+theorem normLabel_valid {l : List Char} (h : ValidLabel l) : labelOf l = some l := by
+  rcases h with rfl | rfl | rfl | rfl <;> simp [labelOf, normLabel]
+
+theorem findMatch_printed (e r1 : Nat) (rs : List Nat) (label : List Char) (n p d : Nat) :
+    findMatch (printed e r1 rs label n p d) = matchHere (printed e r1 rs label n p d) := by
+  have key : ∀ (m : Nat) (rest : List Char), findMatch (natDigits m ++ rest) = matchHere (natDigits m ++ rest) := by
+    intro m rest
+    obtain ⟨dd, cs, hd, h⟩ := natDigits_cons m
+    rw [h]
+    simp [findMatch, digitChar_isDigit dd hd]
+  unfold printed
+  by_cases he : e = 0
+  · simp only [he, ne_eq, not_true_eq_false, if_false, List.nil_append]; exact key r1 _
+  · simp only [ne_eq, he, not_false_eq_true, if_true, List.append_assoc]; exact key e _
+
+/-- Parsing the printed text of well-formed data gives the data back. -/
+theorem parse_printed (e r1 : Nat) (rs : List Nat) {label : List Char} (hl : ValidLabel label) (n p d : Nat)
+    (he : e < 9223372036854775808) (hr : ∀ x ∈ r1 :: rs, x < 9223372036854775808)
+    (hn : n < 9223372036854775808) (hp : p < 9223372036854775808) (hd : d < 9223372036854775808)
+    (hn0 : label = [] → n = 0) :
+    parse (printed e r1 rs label n p d)
+    = some { epoch := (e : Int), release := (r1 :: rs).map Int.ofNat, label := label,
+             preN := (n : Int), post := (p : Int), dev := (d : Int) } := by
+  unfold parse
+  rw [findMatch_printed, matchHere_printed e r1 rs hl n p d]
+  simp only [printedGroups, Option.bind_eq_bind, Option.bind_some, Option.pure_def]
+  rw [atoiOpt_printed e he (e ≠ 0) (by intro h; simpa using h), splitOn_release, atoiAll_natDigits _ hr,
+    normLabel_valid hl, atoiOpt_printed n hn (label ≠ []) (by intro h; exact hn0 (by simpa using h)),
+    atoiOpt_printed p hp (p ≠ 0) (by intro h; simpa using h),
+    atoiOpt_printed d hd (d ≠ 0) (by intro h; simpa using h)]
+  simp only [Option.bind_some, atoiOpt, List.isEmpty_nil, if_true]
+  by_cases hp0 : p = 0
+  · simp [hp0]
+  · simp [hp0, natDigits_isEmpty]
+
+/-! ### well-formed versions -/
+
+/-- What every value returned by `Parse` satisfies: non-negative int64 fields,
+    at least one release number, a canonical pre-release label, and no
+    pre-release number without a label. -/
+structure WF (v : Ver) : Prop where
+  epoch : 0 ≤ v.epoch ∧ v.epoch < 9223372036854775808
+  rel_ne : v.release ≠ []
+  rel : ∀ x ∈ v.release, 0 ≤ x ∧ x < 9223372036854775808
+  label : ValidLabel v.label
+  preN : 0 ≤ v.preN ∧ v.preN < 9223372036854775808
+  preN0 : v.label = [] → v.preN = 0
+  post : 0 ≤ v.post ∧ v.post < 9223372036854775808
+  dev : 0 ≤ v.dev ∧ v.dev < 9223372036854775808
+
+theorem map_toNat_ofNat (l : List Int) (h : ∀ x ∈ l, 0 ≤ x) : (l.map Int.toNat).map Int.ofNat = l := by
+  induction l with
+  | nil => rfl
+  | cons x xs ih =>
+    have hx := h x List.mem_cons_self
+    have := ih (fun y hy => h y (List.mem_cons_of_mem _ hy))
+    simp only [List.map_cons, this]
+    congr 1
+    exact Int.toNat_of_nonneg hx
+
+theorem map_intStr (l : List Int) (h : ∀ x ∈ l, 0 ≤ x) : l.map intStr = (l.map Int.toNat).map natDigits := by
+  induction l with
+  | nil => rfl
+  | cons x xs ih =>
+    have hx := h x List.mem_cons_self
+    have := ih (fun y hy => h y (List.mem_cons_of_mem _ hy))
+    simp only [List.map_cons, this, intStr_nonneg hx]
+
+theorem toStr_eq_printed (v : Ver) (h : WF v) (x : Int) (xs : List Int) (hr : v.release = x :: xs) :
+    toStr v = printed v.epoch.toNat x.toNat (xs.map Int.toNat) v.label v.preN.toNat v.post.toNat v.dev.toNat := by
+  have hrel : ∀ y ∈ x :: xs, 0 ≤ y := fun y hy => (h.rel y (hr ▸ hy)).1
+  have e0 : (v.epoch ≠ 0) ↔ (v.epoch.toNat ≠ 0) := by have := h.epoch; omega
+  have p0 : (v.post ≠ 0) ↔ (v.post.toNat ≠ 0) := by have := h.post; omega
+  have d0 : (v.dev ≠ 0) ↔ (v.dev.toNat ≠ 0) := by have := h.dev; omega
+  unfold toStr printed sufStr preStr postStr devStr
+  rw [hr, map_intStr _ hrel]
+  simp only [List.map_cons, intStr_nonneg h.epoch.1, intStr_nonneg h.preN.1,
+    intStr_nonneg h.post.1, intStr_nonneg h.dev.1]
+  simp only [e0, p0, d0, List.append_assoc]
+  have hj := joinWith_dot x.toNat (xs.map Int.toNat)
+  simp only [List.map_cons] at hj
+  rw [hj]
+  simp [List.append_assoc]
+
+/-- Printing a well-formed version and parsing the text gives the version back. -/
+theorem print_parse (v : Ver) (h : WF v) : parse (toStr v) = some v := by
+  cases hr : v.release with
+  | nil => exact absurd hr h.rel_ne
+  | cons x xs =>
+    have hrel : ∀ y ∈ x :: xs, 0 ≤ y ∧ y < 9223372036854775808 := fun y hy => h.rel y (hr ▸ hy)
+    rw [toStr_eq_printed v h x xs hr]
+    rw [parse_printed v.epoch.toNat x.toNat (xs.map Int.toNat) h.label v.preN.toNat v.post.toNat v.dev.toNat
+      (by have := h.epoch; omega)
+      (by
+        intro y hy
+        rcases List.mem_cons.1 hy with rfl | hy
+        · have := hrel x List.mem_cons_self; omega
+        · obtain ⟨z, hz, rfl⟩ := List.mem_map.1 hy
+          have := hrel z (List.mem_cons_of_mem _ hz); omega)
+      (by have := h.preN; omega) (by have := h.post; omega) (by have := h.dev; omega)
+      (by intro hl; have := h.preN0 hl; omega)]
+    have hm := map_toNat_ofNat (x :: xs) (fun y hy => (hrel y hy).1)
+    simp only [List.map_cons] at hm
+    cases v
+    simp only at hr
+    subst hr
+    simp only [List.map_cons, hm, Int.toNat_of_nonneg h.epoch.1, Int.toNat_of_nonneg h.preN.1,
+      Int.toNat_of_nonneg h.post.1, Int.toNat_of_nonneg h.dev.1]
+
+/-! ### every parsed version is well formed -/
+
+def AllDigits (l : List Char) : Prop := ∀ c ∈ l, isDigit c = true
+
+theorem spanDigits_fst (s : List Char) : AllDigits (spanDigits s).1 := by
+  induction s with
+  | nil => intro c hc; simp [spanDigits] at hc
+  | cons x xs ih =>
+    unfold spanDigits
+    by_cases hx : isDigit x = true
+    · simp only [hx, if_true]
+      intro c hc
+      rcases List.mem_cons.1 hc with rfl | hc
+      · exact hx
+      · exact ih c hc
+    · simp only [hx]
+      intro c hc; simp at hc
+
+theorem isDigit_not_sign {c : Char} (h : isDigit c = true) : c ≠ '-' ∧ c ≠ '+' ∧ c ≠ '.' := by
+  refine ⟨?_, ?_, ?_⟩ <;> (intro e; subst e; revert h; decide)
+
+/-- `Atoi` of a digit string is a non-negative int64. -/
+theorem atoi_digits {l : List Char} (hl : AllDigits l) {x : Int} (h : atoi l = some x) :
+    0 ≤ x ∧ x < 9223372036854775808 := by
+  cases l with
+  | nil => simp [atoi, stripSign] at h
+  | cons c cs =>
+    obtain ⟨h₁, h₂, _⟩ := isDigit_not_sign (hl c List.mem_cons_self)
+    rw [atoi_unsigned cs h₁ h₂] at h
+    split at h
+    · split at h
+      · cases h; omega
+      · cases h
+    · cases h
+
+theorem atoiOpt_digits {l : List Char} (hl : AllDigits l) {x : Int} (h : atoiOpt l = some x) :
+    0 ≤ x ∧ x < 9223372036854775808 := by
+  unfold atoiOpt at h
+  split at h
+  · cases h; omega
+  · exact atoi_digits hl h
+
+theorem atoiOpt_nil_zero {x : Int} (h : atoiOpt [] = some x) : x = 0 := by
+  simp [atoiOpt] at h; omega
+
+/-- The characters of the pieces of `splitOn` are the non-separator characters of the text. -/
+theorem splitOn_pieces (sep : Char) (l : List Char) :
+    ∀ p ∈ splitOn sep l, ∀ c ∈ p, c ∈ l ∧ c ≠ sep := by
+  induction l with
+  | nil => intro p hp c hc; simp [splitOn] at hp; subst hp; simp at hc
+  | cons x xs ih =>
+    intro p hp c hc
+    unfold splitOn at hp
+    cases hs : splitOn sep xs with
+    | nil => exact absurd hs (splitOn_ne_nil sep xs)
+    | cons q qs =>
+      rw [hs] at hp ih
+      simp only at hp
+      by_cases hx : x = sep
+      · simp only [hx, if_true] at hp
+        rcases List.mem_cons.1 hp with rfl | hp
+        · simp at hc
+        · obtain ⟨h₁, h₂⟩ := ih p hp c hc
+          exact ⟨List.mem_cons_of_mem _ h₁, h₂⟩
+      · simp only [hx, if_false] at hp
+        rcases List.mem_cons.1 hp with rfl | hp
+        · rcases List.mem_cons.1 hc with rfl | hc
+          · exact ⟨List.mem_cons_self, hx⟩
+          · obtain ⟨h₁, h₂⟩ := ih q List.mem_cons_self c hc
+            exact ⟨List.mem_cons_of_mem _ h₁, h₂⟩
+        · obtain ⟨h₁, h₂⟩ := ih p (List.mem_cons_of_mem _ hp) c hc
+          exact ⟨List.mem_cons_of_mem _ h₁, h₂⟩
+
+def DigitsOrDot (l : List Char) : Prop := ∀ c ∈ l, isDigit c = true ∨ c = '.'
+
+theorem releaseTail_chars : ∀ (fuel : Nat) (s : List Char), DigitsOrDot (releaseTail fuel s).1
+  | 0, s => by intro c hc; simp [releaseTail] at hc
+  | fuel + 1, s => by
+    unfold releaseTail
+    split
+    · rename_i r
+      by_cases he : (spanDigits r).1.isEmpty = true
+      · simp only [he, if_true]; intro c hc; simp at hc
+      · simp only [he]
+        intro c hc
+        simp only [Bool.false_eq_true, if_false, List.mem_cons, List.mem_append] at hc
+        rcases hc with (rfl | hc) | hc
+        · exact Or.inr rfl
+        · exact Or.inl (spanDigits_fst r c hc)
+        · exact releaseTail_chars fuel _ c hc
+    · intro c hc; simp at hc
+
+theorem atoiAll_members : ∀ (ps : List (List Char)) (xs : List Int), atoiAll ps = some xs →
+    (∀ p ∈ ps, AllDigits p) → xs.length = ps.length ∧ ∀ x ∈ xs, 0 ≤ x ∧ x < 9223372036854775808
+  | [], xs, h, _ => by simp [atoiAll] at h; subst h; simp
+  | p :: ps, xs, h, hd => by
+    unfold atoiAll at h
+    cases hp : atoi p with
+    | none => simp [hp] at h
+    | some n =>
+      cases hps : atoiAll ps with
+      | none => simp [hp, hps] at h
+      | some ns =>
+        simp only [hp, hps, Option.some.injEq] at h
+        subst h
+        obtain ⟨hl, hm⟩ := atoiAll_members ps ns hps (fun q hq => hd q (List.mem_cons_of_mem _ hq))
+        refine ⟨by simp [hl], ?_⟩
+        intro x hx
+        rcases List.mem_cons.1 hx with rfl | hx
+        · exact atoi_digits (hd p List.mem_cons_self) hp
+        · exact hm x hx
+
+theorem labelOf_valid {l r : List Char} (h : labelOf l = some r) : ValidLabel r ∧ (r = [] → l = []) := by
+  unfold labelOf at h
+  split at h
+  · rename_i he; cases h; exact ⟨Or.inl rfl, fun _ => by simpa using he⟩
+  · unfold normLabel at h
+    split at h
+    · cases h; exact ⟨Or.inr (Or.inl rfl), by simp⟩
+    · split at h
+      · cases h; exact ⟨Or.inr (Or.inr (Or.inl rfl)), by simp⟩
+      · split at h
+        · cases h; exact ⟨Or.inr (Or.inr (Or.inr rfl)), by simp⟩
+        · cases h
+
+theorem labelled_digits (alts : List (List Char)) (s : List Char) {l n r : List Char}
+    (h : labelled alts s = some (l, n, r)) : AllDigits n := by
+  unfold labelled at h
+  split at h
+  · rename_i l' r' _
+    simp only [Option.some.injEq, Prod.mk.injEq] at h
+    obtain ⟨_, rfl, _⟩ := h
+    exact spanDigits_fst _
+  · cases h
+
+theorem firstAlt_mem : ∀ (alts : List (List Char)) (s : List Char) {l r : List Char},
+    firstAlt alts s = some (l, r) → l ∈ alts
+  | [], _, _, _, h => by simp [firstAlt] at h
+  | a :: as, s, l, r, h => by
+    unfold firstAlt at h
+    split at h
+    · simp only [Option.some.injEq, Prod.mk.injEq] at h; obtain ⟨rfl, _⟩ := h; exact List.mem_cons_self
+    · exact List.mem_cons_of_mem _ (firstAlt_mem as s h)
+
+theorem preGroup_facts (s : List Char) : AllDigits (preGroup s).2.1 ∧ ((preGroup s).1 = [] → (preGroup s).2.1 = []) := by
+  unfold preGroup
+  cases h : labelled preAlts s with
+  | none => simp [AllDigits]
+  | some t =>
+    obtain ⟨l, n, r⟩ := t
+    refine ⟨labelled_digits _ _ h, ?_⟩
+    intro hl
+    simp only at hl
+    subst hl
+    unfold labelled at h
+    split at h
+    · rename_i l' r' hf
+      simp only [Option.some.injEq, Prod.mk.injEq] at h
+      obtain ⟨rfl, _, _⟩ := h
+      have := firstAlt_mem _ _ hf
+      simp [preAlts] at this
+    · cases h
+
+theorem postDash_digits {s d r : List Char} (h : postDash s = some (d, r)) : AllDigits d := by
+  unfold postDash at h
+  split at h
+  · split at h
+    · cases h
+    · simp only [Option.some.injEq, Prod.mk.injEq] at h
+      obtain ⟨rfl, _⟩ := h
+      exact spanDigits_fst _
+  · cases h
+
+theorem postGroupOpt_digits (s : List Char) : AllDigits (postGroupOpt s).1 ∧ AllDigits (postGroupOpt s).2.1 := by
+  unfold postGroupOpt
+  cases h : postGroup s with
+  | none => simp [AllDigits]
+  | some t =>
+    obtain ⟨a, b, r⟩ := t
+    simp only
+    unfold postGroup at h
+    cases hd : postDash s with
+    | some dr =>
+      obtain ⟨d, r'⟩ := dr
+      simp only [hd, Option.some.injEq, Prod.mk.injEq] at h
+      obtain ⟨rfl, rfl, _⟩ := h
+      exact ⟨postDash_digits hd, by simp [AllDigits]⟩
+    | none =>
+      simp only [hd] at h
+      cases hl : labelled postAlts s with
+      | none => simp [hl] at h
+      | some t' =>
+        obtain ⟨l, d, r'⟩ := t'
+        simp only [hl, Option.some.injEq, Prod.mk.injEq] at h
+        obtain ⟨rfl, rfl, _⟩ := h
+        exact ⟨by simp [AllDigits], labelled_digits _ _ hl⟩
+
+theorem devGroup_digits (s : List Char) : AllDigits (devGroup s) := by
+  unfold devGroup
+  cases h : labelled devAlts s with
+  | none => simp [AllDigits]
+  | some t =>
+    obtain ⟨l, n, r⟩ := t
+    exact labelled_digits _ _ h
+
+theorem epochSplit_fst (s d0 r0 : List Char) (h : AllDigits d0) : AllDigits (epochSplit s d0 r0).1 := by
+  unfold epochSplit
+  split
+  · split
+    · split
+      · exact h
+      · simp [AllDigits]
+    · simp [AllDigits]
+  · simp [AllDigits]
+
+/-- What the recogniser returns is digits where `Parse` expects numbers. -/
+structure GroupsOk (g : Groups) : Prop where
+  epoch : AllDigits g.epoch
+  release : DigitsOrDot g.release
+  preN : AllDigits g.preN
+  preL : g.preL = [] → g.preN = []
+  postN1 : AllDigits g.postN1
+  postN2 : AllDigits g.postN2
+  devN : AllDigits g.devN
+
+theorem matchRest_ok (epoch relStart : List Char) (he : AllDigits epoch) : GroupsOk (matchRest epoch relStart) := by
+  unfold matchRest
+  refine ⟨he, ?_, (preGroup_facts _).1, (preGroup_facts _).2, (postGroupOpt_digits _).1, (postGroupOpt_digits _).2,
+    devGroup_digits _⟩
+  intro c hc
+  simp only [List.mem_append] at hc
+  rcases hc with hc | hc
+  · exact Or.inl (spanDigits_fst _ c hc)
+  · exact releaseTail_chars _ _ c hc
+
+theorem matchHere_ok {s : List Char} {g : Groups} (h : matchHere s = some g) : GroupsOk g := by
+  unfold matchHere at h
+  by_cases he : (spanDigits s).1.isEmpty = true
+  · simp [he] at h
+  · simp only [he, Bool.false_eq_true, if_false, Option.some.injEq] at h
+    subst h
+    exact matchRest_ok _ _ (epochSplit_fst _ _ _ (spanDigits_fst s))
+
+theorem findMatch_ok : ∀ {s : List Char} {g : Groups}, findMatch s = some g → GroupsOk g
+  | [], _, h => by simp [findMatch] at h
+  | c :: cs, g, h => by
+    unfold findMatch at h
+    split at h
+    · exact matchHere_ok h
+    · split at h
+      · split at h
+        · split at h
+          · exact matchHere_ok h
+          · exact findMatch_ok h
+        · cases h
+      · exact findMatch_ok h
+
+/-- Every version `Parse` returns is well formed. -/
+theorem parse_wf {s : List Char} {v : Ver} (h : parse s = some v) : WF v := by
+  unfold parse at h
+  cases hg : findMatch s with
+  | none => simp [hg] at h
+  | some g =>
+    have ok := findMatch_ok hg
+    simp only [hg, Option.bind_eq_bind, Option.bind_some, Option.pure_def] at h
+    cases h1 : atoiOpt g.epoch with
+    | none => simp [h1] at h
+    | some e =>
+    cases h2 : atoiAll (splitOn '.' g.release) with
+    | none => simp [h1, h2] at h
+    | some rel =>
+    cases h3 : labelOf g.preL with
+    | none => simp [h1, h2, h3] at h
+    | some lab =>
+    cases h4 : atoiOpt g.preN with
+    | none => simp [h1, h2, h3, h4] at h
+    | some n =>
+    cases h5 : atoiOpt g.postN1 with
+    | none => simp [h1, h2, h3, h4, h5] at h
+    | some p1 =>
+    cases h6 : atoiOpt g.postN2 with
+    | none => simp [h1, h2, h3, h4, h5, h6] at h
+    | some p2 =>
+    cases h7 : atoiOpt g.devN with
+    | none => simp [h1, h2, h3, h4, h5, h6, h7] at h
+    | some dv =>
+    simp only [h1, h2, h3, h4, h5, h6, h7, Option.bind_some, Option.some.injEq] at h
+    subst h
+    have hpieces : ∀ p ∈ splitOn '.' g.release, AllDigits p := by
+      intro p hp c hc
+      obtain ⟨hm, hne⟩ := splitOn_pieces '.' g.release p hp c hc
+      rcases ok.release c hm with hdig | hdot
+      · exact hdig
+      · exact absurd hdot hne
+    obtain ⟨hlen, hmem⟩ := atoiAll_members _ _ h2 hpieces
+    obtain ⟨hvalid, hnil⟩ := labelOf_valid h3
+    refine ⟨atoiOpt_digits ok.epoch h1, ?_, hmem, hvalid, atoiOpt_digits ok.preN h4, ?_, ?_, atoiOpt_digits ok.devN h7⟩
+    · intro hr
+      simp only at hr
+      have : (splitOn '.' g.release).length = 0 := by rw [← hlen]; simp [hr]
+      exact splitOn_ne_nil '.' g.release (List.eq_nil_of_length_eq_zero this)
+    · intro hl
+      have := ok.preL (hnil hl)
+      rw [this] at h4
+      exact atoiOpt_nil_zero h4
+    · simp only
+      split
+      · exact atoiOpt_digits ok.postN1 h5
+      · exact atoiOpt_digits ok.postN2 h6
 
 end ClairModel.Pep440
